@@ -14,7 +14,7 @@ from .. import common
 def _merge(res, modname, r, only=None):
     """only: optional set of oracle names of this script that state THIS property (the others are ignored)"""
     if only is not None:
-        r = dict(r, oracle={k: v for k, v in (r.get("oracle") or {}).items() if k in only}, corr={})
+        r = dict(r, oracle={k: v for k, v in (r.get("oracle") or {}).items() if k.split("(")[0] in only})
     for op, d in (r.get("corr") or {}).items():
         c = res.corr.setdefault(op, {"cases": 0, "disagreements": 0})
         c["cases"] += int(d.get("cases", 0))
